@@ -39,6 +39,7 @@ SCAL: Dict[str, List[str]] = {
     "PositionTypeWrapper": ["position_type"],                 # custom column type krrood.ormatic.custom_types.TypeType
     "CallableWrapper": [],                                    # func: FunctionType, alternatively mapped by
     "function": ["__module__", "__name__", "__class_name__"],  # krrood.ormatic.alternative_mappings.FunctionMapping
+    "_Holder": [],   # harness-side carrier of several roots converted one by one with ONE ToDAOState / ONE FromDAOState (never converted itself)
 }
 REFS: Dict[str, List[Tuple[str, str, str, bool]]] = {
     "Pose": [("position", "one", "Position", False), ("orientation", "one", "Orientation", False)],
@@ -57,6 +58,7 @@ REFS: Dict[str, List[Tuple[str, str, str, bool]]] = {
     "ContainerGeneration": [("items", "many", "ItemWithBackreference", False)],
     "VectorsWithProperty": [("_vectors", "many", "Vector", False)],
     "CallableWrapper": [("func", "one", "function", False)],
+    "_Holder": [("items", "many", "_Holder", False)],
 }
 SUB = {"Position": ["Position", "Position4D", "Position5D"], "KinematicChain": ["KinematicChain", "Torso"],
        "Entity": ["Entity", "DerivedEntity"]}
@@ -82,9 +84,39 @@ def model_module():
     return importlib.import_module(MODEL_MODULE)
 
 
+class _Holder:
+    """not a mapped class: its items are the roots of a multi-root case"""
+
+    def __init__(self, items=None):
+        self.items = list(items or [])
+
+
 def class_of(cn: str):
     from types import FunctionType
+    if cn == "_Holder":
+        return _Holder
     return FunctionType if cn == "function" else getattr(model_module(), cn)
+
+
+def is_multi(descr) -> bool:
+    return descr["objs"][descr["root"]]["c"] == "_Holder"
+
+
+def make_multi(rng: "core.Rng", d: dict) -> dict:
+    """Turn a rooted graph into a multi-root case: 2-3 roots drawn from its objects (overlapping sub-graphs; sometimes the
+    same root twice = the same DAO converted twice with the same state), carried by a _Holder."""
+    import copy
+    objs = copy.deepcopy(d["objs"])
+    cand = [i for i, o in enumerate(objs) if o["c"] not in ("function", "_Holder")]
+    if not cand:
+        return d
+    roots = [rng.choice(cand) for _ in range(rng.choice([2, 2, 3]))]
+    if rng.chance(0.5):
+        roots[0] = d["root"] if d["root"] in cand else roots[0]
+    if rng.chance(0.3):
+        roots.append(roots[0])
+    objs.append({"c": "_Holder", "s": {}, "r": {"items": roots}})
+    return prune({"objs": objs, "root": len(objs) - 1})
 
 
 def subs(t: str) -> List[str]:
@@ -503,7 +535,7 @@ def setup_impl():
     configure_mappers()
     # the field order the model walks must be the order of the DAO mapper's relationships
     for cn, refs in REFS.items():
-        if cn == "BackreferenceMapping":
+        if cn in ("BackreferenceMapping", "_Holder"):
             continue
         dao = get_dao_class(class_of(cn))
         keys = [r.key for r in sqlalchemy.inspect(dao).relationships]
@@ -520,7 +552,15 @@ def run_impl(descr) -> Dict[str, Any]:
     objs = build(descr)
     root = objs[descr["root"]]
     try:
-        back = to_dao(root).from_dao()
+        if isinstance(root, _Holder):
+            # a graph with several roots converted root by root: ONE explicitly created (still empty) state per direction
+            from krrood.ormatic.dao import ToDAOState, FromDAOState
+            ts = ToDAOState()
+            daos = [to_dao(o, ts) for o in root.items]
+            fs = FromDAOState()
+            back = _Holder([d.from_dao(fs) for d in daos])
+        else:
+            back = to_dao(root).from_dao()
     except RecursionError:
         return {"exc": "RecursionError"}
     except Exception as e:  # noqa
@@ -541,6 +581,13 @@ def falsy_features(descr) -> Dict[str, int]:
                     single += kind == "one"
                     coll += kind == "many"
     return {"falsy_objs": sum(falsy), "falsy_behind_single_ref": single, "falsy_in_collection": coll, "falsy_root": int(falsy[descr["root"]])}
+
+
+def code_fns(descr, model_ok: bool) -> Tuple[str, str]:
+    """(Coq function classifying the case, Coq function giving the model's canonical form)"""
+    if is_multi(descr):
+        return ("case_code_multi" if model_ok else "case_code_spec"), "model_canon_multi"
+    return ("case_code" if model_ok else "case_code_spec"), "model_canon"
 
 
 def input_heap(descr):
@@ -698,6 +745,8 @@ def run(tier: str, seed: int, replay=None) -> int:
     rep.trusted = core.COQ_TRUSTED + [
         "hand-written model Orm/ObjGraphWalk.v (memoised walk of dao.py to_dao/from_dao; fields written at initialisation; "
         "DAO class identified with the class it wraps), tied by differential execution on random graphs over the dataset classes",
+        "source pins pins/ormrt.json (38 methods of dao.py, alternative_mappings.py, custom_types.py, wrapped_table.py, utils.create_engine that the hand "
+        "models mirror; a changed method reopens the correspondence obligation)",
         "harness/c04.py: class table of the dataset (scalar / reference fields, checked against the DAO mappers' relationship order), "
         "graph builder through the dataclass constructors, heap dump, scalar interning (numbers by value), python bisimulation",
         "user code of the dataset (create_instance/create_from_dao of the alternative mappings, ContainerGeneration.__post_init__) "
@@ -714,6 +763,8 @@ def run(tier: str, seed: int, replay=None) -> int:
     ok_spec, log = core.coq_make(["Base/Sx.vo", "Orm/IsoCanon.vo"])
     rep.oblige("build:spec", ok_spec, "" if ok_spec else core.first_error(log))
     model_ok = core.standard_proof_steps(rep, PROP, ["Props/C04.vo"])
+    from translator import pins
+    pins.oblige(rep, str(core.REPO), "ormrt", "Orm/ObjGraphWalk.v + ToDao.v + FromDao.v (hand model of to_dao/from_dao)")
     try:
         setup_impl()
         rep.oblige("impl:dataset-layer", True, "test.dataset.ormatic_interface imported, mappers configured, relationship order checked")
@@ -762,15 +813,20 @@ def run(tier: str, seed: int, replay=None) -> int:
         rng = core.Rng(seed).fork(4)
         ncases = 4000 if tier == "quick" else 30000
         for i in range(ncases):
-            descrs.append(gen_graph(rng.fork(i), 12 if tier == "quick" or i % 4 else 24))
+            g = gen_graph(rng.fork(i), 12 if tier == "quick" or i % 4 else 24)
+            if i % 5 == 4:      # every fifth case: several roots, one shared ToDAOState and one shared FromDAOState
+                g = make_multi(rng.fork(1000000 + i), g)
+            descrs.append(g)
             origin.append(f"gen:{i}")
 
     # run the implementation, build the Coq cases
     exprs, metas = [], []
     dist = {"n": {}, "root_class": {}, "shared>0": 0, "cyclic>0": 0, "self_loop>0": 0, "none>0": 0, "empty_coll>0": 0,
             "repeated_elem>0": 0, "subclass_in_base_field>0": 0, "alt>0": 0, "altbase>0": 0, "altcycle": 0, "in_F04": 0}
-    fn = "case_code" if model_ok else "case_code_spec"
+    dist["multi_root"] = 0
     for d, org in zip(descrs, origin):
+        fn = code_fns(d, model_ok)[0]
+        dist["multi_root"] += 1 if is_multi(d) else 0
         ft = features(d)
         res = run_impl(d)
         heap, r, anom = input_heap(d)
@@ -881,7 +937,7 @@ def run(tier: str, seed: int, replay=None) -> int:
             try:
                 alts = m.get("alts") or alts_term()
                 a1 = f"{heap_term(m['heap'])} {m['root']}%nat"
-                v = core.coq_eval_sx(PROP, HEADER, [f"spec_canon {a1}", f"model_canon {alts} {a1}",
+                v = core.coq_eval_sx(PROP, HEADER, [f"spec_canon {a1}", f"{code_fns(m['descr'], True)[1]} {alts} {a1}",
                                                    f"spec_canon {heap_term(m['res']['heap'])} {m['res']['root']}%nat"])
                 detail = {"spec": v[0], "model": v[1], "impl": v[2]}
             except Exception as e:  # noqa
